@@ -827,3 +827,85 @@ func StaleContextAfterReconnect(d *fw.Driver, res *fw.Result, seed int64) error 
 	res.Eval(true, []interface{}{"stale-context-after-reconnect"})
 	return nil
 }
+
+// Independence: (a) a subscription whose producer never lets its channel run empty must not keep the
+// forwarder from announcing and serving another subscription on the same connection; (b) an element the
+// client cannot decode into its declared element type is that element's problem only — the later values
+// arrive and the channel closes when the handler closes.
+func Independence(res *fw.Result, seed int64) error {
+	e, err := scen.NewEnv(seed+91, 0)
+	if err != nil {
+		return err
+	}
+	defer e.Close()
+	ctx, cancel := context.WithCancel(context.Background())
+	defer cancel()
+	cl, closer, err := e.Client(ctx, jsonrpc.WithNoReconnect())
+	if err != nil {
+		return err
+	}
+	defer scen.WithTimeout(3*time.Second, closer)
+	// (a)
+	fctx, fcancel := context.WithCancel(ctx)
+	fh, err := cl.Firehose(fctx, 980001)
+	if err != nil || fh == nil {
+		fcancel()
+		return fmt.Errorf("harness error: Firehose: %v", err)
+	}
+	go func() {
+		for range fh { // a consumer that keeps up
+		}
+	}()
+	time.Sleep(30 * time.Millisecond)
+	type subRes struct {
+		got []int
+		err error
+	}
+	done := make(chan subRes, 1)
+	go func() {
+		ch, err := cl.Sub(ctx, 980002, 3)
+		var r subRes
+		r.err = err
+		if err == nil && ch != nil {
+			for v := range ch {
+				r.got = append(r.got, v)
+			}
+		}
+		done <- r
+	}()
+	select {
+	case r := <-done:
+		if r.err != nil || len(r.got) != 3 {
+			res.Add(fw.Finding{Kind: "monitor", Signature: "subscription next to a firehose", Detail: fmt.Sprintf("a 3-value subscription opened while another stream was running at full speed returned err=%v values=%v", r.err, r.got), Case: map[string]interface{}{"scenario": "independence-firehose"}})
+		}
+	case <-time.After(4 * time.Second):
+		res.Add(fw.Finding{Kind: "monitor", Signature: "subscription next to a firehose blocked", Detail: "a subscription opened while another stream was running at full speed was not even announced within 4s: one stream starves the others", Case: map[string]interface{}{"scenario": "independence-firehose"}})
+	}
+	fcancel()
+	// (b)
+	sm, err := cl.SubSmall(ctx, 980003, 12)
+	if err != nil || sm == nil {
+		res.Add(fw.Finding{Kind: "monitor", Signature: "stream with undecodable elements: call failed", Detail: fmt.Sprintf("%v", err)})
+		return nil
+	}
+	var got []int8
+	closed := make(chan struct{})
+	go func() {
+		defer close(closed)
+		for v := range sm {
+			got = append(got, v)
+		}
+	}()
+	select {
+	case <-closed:
+		want := []int8{0, 1, 3, 4, 6, 7, 9, 10} // every third value (1<<40+i) cannot be decoded into int8 and is skipped
+		if fw.JSON(got) != fw.JSON(want) {
+			res.Add(fw.Finding{Kind: "monitor", Signature: "stream with undecodable elements: values", Detail: fmt.Sprintf("the decodable values of the stream are %v, the caller received %v", want, got), Case: map[string]interface{}{"scenario": "independence-undecodable"}})
+		}
+	case <-time.After(4 * time.Second):
+		res.Add(fw.Finding{Kind: "monitor", Signature: "stream with undecodable elements: never closes", Detail: fmt.Sprintf("the caller's channel was not closed within 4s of the handler closing its channel (received %v)", got), Case: map[string]interface{}{"scenario": "independence-undecodable"}})
+	}
+	res.Count("independence")
+	res.Eval(true, []interface{}{"independence"})
+	return nil
+}
